@@ -76,6 +76,38 @@ func StaticCallee(c ssa.CallInstruction) *ssa.Function {
 	return nil
 }
 
+// ResolveFuncValue resolves a function value that is a constant of the program — a function, a closure, or a
+// method value (`x.m`, go/ssa's bound-method wrapper) — possibly passed through a captured variable. For a method
+// value it returns the method and the bound receiver as extra leading argument.
+func ResolveFuncValue(v ssa.Value) (*ssa.Function, []ssa.Value) {
+	v = Unspill(v)
+	if ct, ok := v.(*ssa.ChangeType); ok {
+		v = Unspill(ct.X)
+	}
+	switch x := v.(type) {
+	case *ssa.Function:
+		return x, nil
+	case *ssa.MakeClosure:
+		fn := x.Fn.(*ssa.Function)
+		if OrigFunc(fn).Synthetic != "" && len(x.Bindings) == 1 {
+			// bound method wrapper: its body is one call of the method on the bound receiver
+			var target *ssa.Function
+			for _, b := range OrigFunc(fn).Blocks {
+				for _, in := range b.Instrs {
+					if c, ok := in.(*ssa.Call); ok && target == nil {
+						target = c.Call.StaticCallee()
+					}
+				}
+			}
+			if target != nil {
+				return target, []ssa.Value{x.Bindings[0]}
+			}
+		}
+		return fn, nil
+	}
+	return nil, nil
+}
+
 // Args returns the actual arguments including the receiver for method calls
 // (for invoke-mode calls the receiver is cc.Value and comes first).
 func Args(c ssa.CallInstruction) []ssa.Value {
@@ -338,6 +370,29 @@ func FieldOf(v ssa.Value) *types.Var {
 
 // ConstInt returns the integer value of a constant SSA value.
 func ConstInt(v ssa.Value) (int64, bool) {
+	// an integer conversion of a constant (left behind where a helper taking the number as a parameter was expanded)
+	if cv, ok := v.(*ssa.Convert); ok {
+		k, isC := ConstInt(cv.X)
+		b, isB := cv.Type().Underlying().(*types.Basic)
+		if !isC || !isB || b.Info()&types.IsInteger == 0 {
+			return 0, false
+		}
+		switch b.Kind() {
+		case types.Uint8:
+			return int64(uint8(k)), true
+		case types.Uint16:
+			return int64(uint16(k)), true
+		case types.Uint32:
+			return int64(uint32(k)), true
+		case types.Int8:
+			return int64(int8(k)), true
+		case types.Int16:
+			return int64(int16(k)), true
+		case types.Int32:
+			return int64(int32(k)), true
+		}
+		return k, true
+	}
 	c, ok := v.(*ssa.Const)
 	if !ok || c.Value == nil || c.Value.Kind() != constant.Int {
 		return 0, false
